@@ -1490,10 +1490,10 @@ class ComponentSpecification(experiment.model.interface.InternalRepresentationAt
 
             def postprocess_backend(backend_type, info_backend):
                 # type: (str, Dict[str, Any]) -> Dict[str, Any]
-                # VV: The only backend types that have relative info are kubernetes and lsf, the info we care
+                # VV: The only backend types that have relative info are kubernetes, docker and lsf, the info we care
                 #     about is pertaining to the image that the container uses
-                if backend_type == 'kubernetes':
-                    # VV: The kubernetes backend always uses an image
+                if backend_type in ('kubernetes', 'docker'):
+                    # VV: The kubernetes and the docker backends always use an image
                     return {'image': info_backend['image']}
                 elif backend_type == 'lsf' and info_backend.get('dockerImage'):
                     # VV: lack of a dockerImage is equivalent to using the local backend
